@@ -406,7 +406,7 @@ def dr_results_labels_frf(seed, quick):
                 res.frf_data_recovery({UF: SimpleNamespace(a=r, v=r, d=r, f=f)}, None, "%s case %d" % (name, j), DR, len(resps), j, dosrs=False)
         return res
     base = ["Row %s" % c for c in "ABCDEF"]
-    nrep = 2 if quick else 8
+    nrep = 2 if quick else 40
     for rep in range(nrep):
         mk = lambda n_: [rng.uniform(1, 10, size=(n_, 1)) * rng.randn(n_, T.size) for _ in range(2)]
         perm = list(rng.permutation(6))
@@ -489,7 +489,7 @@ def dr_results_labels_frf(seed, quick):
             return ev, dict(what="time_data_recovery with cases recovered in the order %s: %s" % (order, prob))
     # (b) frequency-response recovery with NaNs and ties
     F = np.arange(0.0, 20.0, 1.0)
-    for rep in range(3 if quick else 12):
+    for rep in range(3 if quick else 60):
         ncase, nrow = 4, 5
         resps = []
         for j in range(ncase):
